@@ -141,7 +141,7 @@ package shimagent
 //@ func (remover).remove(r, key)
 //@   flag inline
 
-//@ func filter$1(pub)
+//@ func (*Server).filter$1(pub)
 //@   flag inline
 //@   loop 1:
 //@     flag keepquant
